@@ -23,23 +23,26 @@ TRUSTED = ['statsmodels GLM (the fluctuation model) converges to the root of its
            'probe hook ZEPID_VERIF=1 in TMLE.fit (read-only copy of Qstar, Qstar1, Qstar0, H1W, H0W, delta, epsilon)']
 
 
-def gen_case(rng):
+def gen_case(rng, force_pair=False):
     otype = rng.choice(['binary', 'binary', 'normal'])
-    missing = rng.choice([None, None, 'mar', 'mcar'])
-    extreme = rng.random() < 0.15
+    missing = rng.choice([None, None, 'mar', 'mcar']) if not force_pair else 'mar'
+    extreme = rng.random() < 0.15 and not force_pair
     if extreme:
         df, meta = datagen.mixed_frame(rng, n=rng.randint(300, 900), outcome=otype, missing=missing, extreme=True)
         meta['extreme'] = True
     else:
         df, meta = datagen.mixed_frame(rng, outcome=otype, missing=missing)
-    b = rng.choice(['none', 'none', 'sym', 'pair']) if not extreme else 'none'
+    b = (rng.choice(['none', 'none', 'sym', 'pair']) if not extreme else 'none') if not force_pair else 'pair'
     if b == 'none':
         bound = False
     elif b == 'sym':
         bound = round(rng.uniform(0.02, 0.3), 3)
     else:
         bound = [round(rng.uniform(0.02, 0.3), 3), round(rng.uniform(0.7, 0.98), 3)]
-    use_miss_model = missing is not None and rng.random() < 0.7
+    if force_pair:
+        # an asymmetric bound that bites on both sides (lo + hi != 1), together with a missing-outcome model
+        bound = [round(rng.uniform(0.2, 0.38), 3), round(rng.uniform(0.52, 0.7), 3)]
+    use_miss_model = (missing is not None and rng.random() < 0.7) or force_pair
     # truncation of the INITIAL outcome predictions: the documented `bound` of outcome_model, and continuous outcomes
     # skewed enough that a Gaussian fit predicts outside the observed range (clipped to [cb, 1-cb] by the code)
     qb = rng.choice(['none', 'none', 'sym', 'pair'])
@@ -145,6 +148,18 @@ def check_case(ctx, fails, case, tr, small_exprs, small_refs):
     obs = delta == 1
     g1t = np.asarray(tm.g1W_total, dtype=float)
     g0t = np.asarray(tm.g0W_total, dtype=float)
+    # the denominators of the clever covariates are the fitted (truncated, as stored) treatment probabilities, times the fitted
+    # probabilities of an observed outcome when a missing-outcome model was specified
+    g1s, g0s = np.asarray(tm.g1W, dtype=float), np.asarray(tm.g0W, dtype=float)
+    if case['miss_model'] and getattr(tm, 'm1W', None) is not None:
+        e1, e0 = g1s * np.asarray(tm.m1W, dtype=float), g0s * np.asarray(tm.m0W, dtype=float)
+    else:
+        e1, e0 = g1s, g0s
+    ctx.disagreements_checked += 1
+    if np.max(np.abs(g1t - e1)) > 1e-12 or np.max(np.abs(g0t - e0)) > 1e-12:
+        fails.append((n, 'TMLE.denominators', 'the denominators used by fit() differ from the stored g1W / g0W%s (max |difference| %g for A=1, %g for A=0; '
+                      'g-bound %r)' % (' times m1W / m0W' if case['miss_model'] else '', float(np.max(np.abs(g1t - e1))), float(np.max(np.abs(g0t - e0))),
+                                       case['bound']), payload))
     # (1) the two efficient-score equations, written from the property (A/g1, (1-A)/g0), on observed rows
     s1 = float(np.sum((a / g1t * (y - Qs))[obs]))
     s0 = float(np.sum(((1 - a) / g0t * (y - Qs))[obs]))
@@ -276,6 +291,7 @@ def run_cases(ctx, fails, cases):
 def run(ctx):
     fails = []
     cases = [gen_case(ctx.rng) for _ in range(40 if ctx.quick else 500)]
+    cases += [gen_case(ctx.rng, force_pair=True) for _ in range(3 if ctx.quick else 25)]
     run_cases(ctx, fails, cases)
     report(ctx, fails)
 
